@@ -413,6 +413,10 @@ func runTLS(t *testing.T, rc *RunCtx) {
 		runTLSConc(t, rc)
 		return
 	}
+	if rc.Param("mode", "") == "resume" {
+		runTLSResume(t, rc)
+		return
+	}
 	InitBLS()
 	w := getTLSWorld(t, rc)
 	methods := tlsMethods()
@@ -914,7 +918,75 @@ func runPeerEdgeConc(t *testing.T, rc *RunCtx) {
 	}
 }
 
+// runTLSResume is the session-resumption scenario of C19: a client with a genuine certificate of authority A
+// talks to a daemon configured with A (full handshake, session ticket received), then - with the same TLS
+// session cache - to a daemon that has the same server certificate but is configured with another authority B
+// only (an operator replaced the authority and restarted).  That daemon must verify the caller against B:
+// nothing is served on the strength of a session another process vouched for.
+var (
+	resumeOnce sync.Once
+	resumeSrv  *tlsServer
+)
+
+func runTLSResume(t *testing.T, rc *RunCtx) {
+	InitBLS()
+	w := getTLSWorld(t, rc)
+	resumeOnce.Do(func() {
+		setupRC := &RunCtx{Property: "C19", Ch: NewSeedChoice(1), Stats: NewStats()}
+		pemB := pem.EncodeToMemory(&pem.Block{Type: "CERTIFICATE", Bytes: w.otherCA.Raw})
+		resumeSrv = w.startServerWith(t, setupRC, pemB, "", nil)
+	})
+	ch := rc.Ch
+	pool := x509.NewCertPool()
+	pool.AppendCertsFromPEM(resources.CACrt)
+	crt, err := tls.X509KeyPair(resources.ClientTest01Crt, resources.ClientTest01Key)
+	if err != nil {
+		t.Fatalf("pair: %v", err)
+	}
+	cfg := &tls.Config{RootCAs: pool, ServerName: "signer-test01", MinVersion: tls.VersionTLS13, Certificates: []tls.Certificate{crt}, ClientSessionCache: tls.NewLRUClientSessionCache(8)}
+	call := func(addr string) (string, error) {
+		cc, err := grpc.NewClient(addr, grpc.WithTransportCredentials(credentials.NewTLS(cfg)))
+		if err != nil {
+			return "", err
+		}
+		defer cc.Close()
+		ctx, cancel := context.WithTimeout(context.Background(), 10*time.Second)
+		defer cancel()
+		if ch.Pick(2, 0) == 1 {
+			r, err := pb.NewListerClient(cc).ListAccounts(ctx, &pb.ListAccountsRequest{Paths: []string{"Wallet 1"}})
+			if err != nil {
+				return "", err
+			}
+			return fmt.Sprintf("a listing of %d accounts", len(r.GetAccounts())), nil
+		}
+		r, err := pb.NewSignerClient(cc).Sign(ctx, &pb.SignRequest{Id: &pb.SignRequest_Account{Account: "Wallet 1/Account 0"}, Data: h32("resume", rc.Seed), Domain: MkDomain([4]byte{7, 0, 0, 0}, rc.Seed)})
+		if err != nil {
+			return "", err
+		}
+		return signSummary(r.GetState(), r.GetSignature()), nil
+	}
+	warm := 1 + ch.Pick(3, 0)
+	for i := 0; i < warm; i++ {
+		if what, err := call(w.withCA.addr); err != nil {
+			rc.Stats.Inc("resume_control_failed", 1)
+			rc.Logf("control call failed: %v", err)
+			return
+		} else if i == 0 {
+			rc.Logf("with the right authority configured: %s", what)
+		}
+	}
+	rc.Stats.Inc("resume_sessions_established", 1)
+	what, err := call(resumeSrv.addr)
+	rc.Stats.Inc("resume_attempts_against_other_authority", 1)
+	rc.Stats.Seen("cases", fmt.Sprintf("resume/%d/%d", warm, rc.Seed))
+	rc.Sample = map[string]any{"layer": "session resumption across daemons with different authorities", "sessions_before": warm}
+	if err == nil {
+		rc.Violate("C19", "served-without-valid-certificate", fmt.Sprintf("a daemon configured with another authority served a caller whose certificate that authority never issued (%s), after the caller had established TLS sessions with a daemon of the original authority", what), 0)
+	}
+}
+
 func init() {
+	noBubble["C19:resume"] = true
 	noBubble["C16:tlsconc"] = true
 	noBubble["C19:conc"] = true
 	noBubble["C16:tls"] = true
